@@ -33,6 +33,13 @@ def run_check(pid, tier="quick", root=None, quiet=False, write=True):
                 raise
             chk.note(f"analysis incomplete after the violation(s) above: {e}")
         if write:
+            if tier == "thorough" and os.environ.get("CNVLINT_NO_SELFTEST") != "1":
+                from . import mutate
+                st = mutate.run_for(pid, root=prog.root)
+                chk.selftest = st
+                print(f"SELFTEST {pid}: {st.get('mutants', 0)} mutants {st.get('by_status', {})}")
+                for pb in st.get("problems", []):
+                    print(f"SELFTEST {pid} {pb['status']:16} {pb['mutant']}  {pb['detail']}")
             code = chk.finish(level_text=getattr(mod, "LEVEL_TEXT", ""))
         else:
             from .report import load_known
